@@ -113,7 +113,7 @@ def theorems_of(module, namespace):
     path = os.path.join(LEAN, *module.split('.')) + '.lean'
     with open(path) as fd:
         text = strip_comments(fd.read())
-    names = re.findall(r'^\s*(?:protected\s+)?theorem\s+([\w.\']+)', text, flags=re.M)
+    names = re.findall(r'^\s*(?:protected\s+)?theorem\s+([\w.\'?!]+)', text, flags=re.M)
     examples = len(re.findall(r'^\s*example\b', text, flags=re.M))
     return [f'{namespace}.{n}' for n in names], examples
 
